@@ -1,6 +1,7 @@
 (* C15 — the LLO mode aggregate was reported identically by at least f+1 observers. *)
 From DS Require Import Base Decimal StreamValue Sort Aggregators.
 From DS Require Import MctProofs ModeProofs.
+From DS Require Outcome OutcomeAggRange OutcomeEndToEnd OutcomeRoundTrip ReportsNoPanic NvHistory NvE2E.
 From Coq Require Import Permutation.
 
 (* a value is returned only if >= f+1 values of the most common type have byte-identical serialisations,
@@ -41,6 +42,34 @@ Theorem C15_mode_err_otherwise : forall vs f,
   mode_agg vs f = Err ETooFew.
 Proof. exact mode_err_otherwise. Qed.
 Print Assumptions C15_mode_err_otherwise.
+
+(* end to end (OutcomeEndToEnd): senders are correct nodes (Plugin.Observation of their inputs, marshalled in any map
+   order) or arbitrary bytes; with at most f faulty present values for the stream, a Decimal / Quote the new outcome holds
+   for a (stream, mode) pair is a value that some correct node's DATA SOURCE returned for that stream *)
+Theorem C15_llo_mode_from_a_correct_data_source :
+  forall h check codec_ok cf seq prev_bytes (ss : list OutcomeEndToEnd.lsender) prev next sid v,
+  ReportsNoPanic.bok prev_bytes -> OutcomeEndToEnd.lsenders_ok codec_ok cf seq prev_bytes ss -> 1 < seq ->
+  (forall i rms ups vals, In (OutcomeEndToEnd.LCorrect i rms ups vals) ss ->
+     stdpp.fin_maps.map_Forall (fun _ x => OutcomeRoundTrip.small (sval_marshal x)) (OutcomeEndToEnd.oi_vals i)) ->
+  Outcome.outcome_step h cf seq prev (map fst (OutcomeEndToEnd.tagged check codec_ok cf seq prev_bytes ss)) = Ok next ->
+  stdpp.base.lookup (sid, 2) (Outcome.o_aggs next) = Some v -> OutcomeEndToEnd.not_tsv v ->
+  (length (List.filter (fun p : option sval * bool => match fst p with Some _ => negb (snd p) | None => false end)
+                       (OutcomeAggRange.accepted_vals (OutcomeEndToEnd.tagged check codec_ok cf seq prev_bytes ss) sid)) <= Outcome.c_f cf)%nat ->
+  exists i, (exists rms ups vals, In (OutcomeEndToEnd.LCorrect i rms ups vals) ss) /\
+            stdpp.base.lookup sid (OutcomeEndToEnd.oi_vals i) = Some v.
+Proof. exact OutcomeEndToEnd.llo_mode_from_a_correct_data_source. Qed.
+Print Assumptions C15_llo_mode_from_a_correct_data_source.
+
+Example C15_nv_end_to_end :
+  ReportsNoPanic.bok NvE2E.m_prev_bytes /\ OutcomeEndToEnd.lsenders_ok (fun _ => true) NvHistory.nv_cf 3 NvE2E.m_prev_bytes NvE2E.m_ss /\
+  (forall i rms ups vals, In (OutcomeEndToEnd.LCorrect i rms ups vals) NvE2E.m_ss ->
+     stdpp.fin_maps.map_Forall (fun _ x => OutcomeRoundTrip.small (sval_marshal x)) (OutcomeEndToEnd.oi_vals i)) /\
+  match Outcome.outcome_step NvHistory.nv_h NvHistory.nv_cf 3 NvE2E.m_p2 (map fst NvE2E.m_tagged) with
+  | Ok next => stdpp.base.lookup (4, 2) (Outcome.o_aggs next) = Some (SDec (mkdec 5 0))
+  | _ => False end /\
+  (length (List.filter (fun p : option sval * bool => match fst p with Some _ => negb (snd p) | None => false end)
+                       (OutcomeAggRange.accepted_vals NvE2E.m_tagged 4)) <= Outcome.c_f NvHistory.nv_cf)%nat.
+Proof. exact NvE2E.m_round. Qed.
 
 (* non-vacuity: f = 1, {1.10, 1.10, 1.1(different bytes), Quote} -> 1.10; a 1/1 tie -> error *)
 Example C15_nv :
